@@ -194,6 +194,12 @@ def extract(src):
     need(r"arr\[i\]\[0\] = '\\\\';\s*arr\[i\]\[1\] = 'x';\s*arr\[i\]\[2\] = d\[i / 16\];\s*arr\[i\]\[3\] = d\[i % 16\];", ut, "utils char_names hex form")
     need(r"return static_cast<size_t>\(static_cast<unsigned char>\(c\)\) & 0xff;", ut, "utils char_to_idx")
     need(r"return dd\(d1\) \* 16 \+ dd\(d2\);", src, "regex hex_digits_to_char")
+    # namespace buffers (Model/Buffers.v)
+    bf = src[src.index("namespace buffers"):src.index("template<typename Buffer>\n    using iterator_t")]
+    need(r"constexpr iterator end\(\) const \{ return iterator\{ data \+ N - 1 \}; \}", bf, "buffers cstring_buffer end")
+    need(r"constexpr std::string_view get_view\(iterator start, iterator end\) const \{ return std::string_view\(start\.ptr, end\.ptr - start\.ptr\); \}", bf, "buffers cstring_buffer get_view")
+    if len(re.findall(r"return std::string_view\(str\.data\(\) \+ \(start - str\.begin\(\)\), end - start\);", bf)) != 2: raise Lost("buffers string_buffer / string_view_buffer get_view")
+    if len(re.findall(r"auto begin\(\) const \{ return str\.cbegin\(\); \}\s*auto end\(\) const \{ return str\.cend\(\); \}", bf)) != 2: raise Lost("buffers begin / end")
     return out
 
 def emit(facts):
